@@ -15,6 +15,13 @@ CHECKS = {
          "(b) CrossHair: toXmlName/coerceElement/coerceAttribute/fromXmlName on all names up to length 3 (quick) / 4 (thorough) over a 12-character class alphabet: result accepted by expat, legal names unchanged, round trip, injectivity (thorough); coerceComment on all Unicode strings up to length 5/7 with symbolic flags; coercePubid up to length 3.",
     note="expat is the XML-name oracle (XML 1.0 4th ed.); alphabet-to-all-characters step rests on (a) and on toXmlName using characters only through the two regexes; non-BMP outside the claim. " + NOTE_COMMON,
     design="§3 C20"),
+ "C14": dict(
+    technique="bounded symbolic execution (CrossHair/z3) of the real consumeNumberEntity/consumeEntity/trie/htmlentityreplace_errors against an independent reference over Python's html.entities tables; numeric value closed for an UNBOUNDED symbolic integer; z3 query on the replacement table",
+    text="Numeric references: consumeNumberEntity is closed for every non-negative integer value (unbounded symbolic n via a stub of the digit parser) and every terminator character; the unstubbed digit path for <= 2/3 class digits, 0..12/40 leading zeros, all five contexts. "
+         "Named references: for all legacy names + every 21st (quick) / all 2231 names (thorough), followed by every character that continues towards a longer name and 15 class representatives incl. EOF, in data, RCDATA and the three attribute contexts, the real entry points are compared with the standard's longest-match + attribute-exception rule (R10). "
+         "Arbitrary strings of <= 1/2 Unicode characters after '&' fully symbolic. Tables: entities == html.entities.html5; replacement table vs the standard for every value (z3). Reverse map: htmlentityreplace_errors output decodes back (R10) over a class alphabet.",
+    note="R10 reference and Python's stdlib tables trusted; tails of named references are class representatives (data-independence of consumeEntity w.r.t. characters it only compares with asciiLetters/digits/'=' is assumed); C1-control numeric references are a listed known finding. " + NOTE_COMMON,
+    design="§3 C14"),
  "C18": dict(
     technique="bounded symbolic execution of the real alphabetical-attributes filter (CrossHair/z3): attribute keys by symbolic index over a collision alphabet, values/types unbounded symbolic strings; z3 injectivity lemma on the sort key",
     text="Bounded model checking of alphabeticalattributes.Filter.__iter__ and _attr_key: for every ordered selection of 0..3 distinct keys from a 10-key alphabet that contains the None/''/namespace collision shapes, with unbounded symbolic values, "
